@@ -102,6 +102,9 @@ def _qplan(what, quick, thorough):
 
 
 PLAN = {
+    "C10": _qplan("dispatch_apply with n in {0,1,2,3,5} on APPLY_AUTO / global / serial / concurrent / concurrent->serial / concurrent with a racing barrier / width-2 queues, "
+                  "nested apply(2) inside apply(2), each with 1, 2 and 3 CPUs (so n is below, at and above the helper count)",
+                  "k<=2 (k<=1, and k=0 for n>=3 on 3 CPUs, with the racing barrier)", "k<=3 for n<=2, k<=2 otherwise; racing barrier k<=1/2"),
     "C06": _qplan("suspend/resume/activate scripts from 1-3 threads on one queue (racing pairs at inline depth 0/62/63, suspend from an item or a barrier item, blocked dispatch_sync, "
                   "initially-inactive queues) plus sequential nesting histories of depth 1..130 and walks across the side-counter boundaries",
                   "k<=3 for the sequential histories, k<=2 for the scripts (k<=1 on concurrent queues)", "k<=4 / k<=3 / k<=2"),
@@ -210,6 +213,27 @@ def tasks_for(pid, tier):
         if q:
             return ds("sema", 3, core, jobs=2)
         return ds("sema", 4, core, jobs=2) + ds("sema", 3, rest, jobs=2)
+    if pid == "C10":
+        out = []
+        for ncpu in (1, 2, 3):
+            for v in variants("apply"):
+                kind, n = (v // 5, (0, 1, 2, 3, 5)[v % 5]) if v < 35 else (None, 2)
+                if kind == 5:   # racing barrier: large trees
+                    if ncpu == 3 and n >= 3:
+                        k = 0 if q else 1
+                    else:
+                        k = 1 if (q or n >= 2) else 2
+                    out += ds("apply", k, [v], ncpu=ncpu, jobs=8)
+                else:
+                    pool = kind in (0, 1, 3, 6) or kind is None
+                    heavy = pool and ncpu == 3 and n >= 3
+                    if q:
+                        k = 1 if heavy else 2
+                    else:
+                        k = 2 if heavy else 3 if (n <= 2 and not pool) else 2
+                    out += ds("apply", k, [v], ncpu=ncpu, jobs=4)
+        out.sort(key=lambda t: (t["jobs"], t["variant"]))
+        return out
     if pid == "C15":
         out = []
         for v in variants("source"):
